@@ -94,6 +94,7 @@ class ClientWebSocketResponse(Generic[_DecodeText]):
         self._loop = loop
         self._waiting: bool = False
         self._close_wait: asyncio.Future[None] | None = None
+        self._close_done: asyncio.Event | None = None
         self._exception: BaseException | None = None
         self._compress = compress
         self._client_notakeover = client_notakeover
@@ -353,9 +354,14 @@ class ClientWebSocketResponse(Generic[_DecodeText]):
             await asyncio.sleep(0)
 
         if self._closed:
+            # close() of another task may still be waiting for the peer's
+            # CLOSE: the session is not closed until that handshake has ended.
+            if self._close_done is not None:
+                await self._close_done.wait()
             return False
 
         self._set_closed()
+        self._close_done = asyncio.Event()
         try:
             # A single deadline for the whole close handshake: sending our
             # CLOSE (the peer may have stopped reading) is bounded as well and
@@ -387,6 +393,8 @@ class ClientWebSocketResponse(Generic[_DecodeText]):
             self._exception = exc
             self._abort()
             return True
+        finally:
+            self._close_done.set()
 
     @overload
     async def receive(
